@@ -857,7 +857,11 @@ func RunSchedProperty(c *lib.Ctx, prop string) {
 	var cases []*SchedCase
 	var replay SchedCase
 	if c.ReadReplay(&replay) && len(replay.Targets) > 0 {
-		for i := 0; i < 5; i++ {
+		repeat := 5
+		if v := os.Getenv("VERIF_SCHED_REPEAT"); v != "" { // stability runs: the same case many times
+			fmt.Sscan(v, &repeat)
+		}
+		for i := 0; i < repeat; i++ {
 			cp := replay
 			cases = append(cases, &cp)
 		}
